@@ -88,7 +88,7 @@ def run(module, cfg=None, *, workers=None, timeout=600, env=None, extra=(), simu
         os.write(fd, body.encode())
         os.close(fd)
         cfgpath = tmpcfg
-    javaopts = ['-XX:+UseParallelGC', '-Xmx' + heap, '-Xss16m']
+    javaopts = ['-XX:+UseParallelGC', '-Xmx' + heap, '-Xss16m', '-Djava.io.tmpdir=' + meta]     # (TLC leaves an empty tlc-<n> directory there)
     if dfs:
         javaopts.append('-Dtlc2.tool.queue.IStateQueue=StateDeque')
     cmd = ['timeout', '-k', '5', str(int(timeout)), 'java'] + javaopts + ['-cp', JAR, 'tlc2.TLC',
